@@ -37,11 +37,11 @@ type LockAnalysis struct {
 	accesses func(f *ssa.Function) []lockAccess
 	funcs    []*ssa.Function
 
-	acquires map[*ssa.Function]lockMode // lock helpers: the mode the function leaves held on every return
+	acquires map[*ssa.Function]lockMode                     // lock helpers: the mode the function leaves held on every return
 	state    map[*ssa.Function]map[ssa.Instruction]lockMode // lock mode held locally before each instruction
-	acc   map[*ssa.Function][]lockAccess
-	need  map[*ssa.Function]lockMode
-	why   map[*ssa.Function]string // witness for need: "callee chain → access"
+	acc      map[*ssa.Function][]lockAccess
+	need     map[*ssa.Function]lockMode
+	why      map[*ssa.Function]string // witness for need: "callee chain → access"
 }
 
 // lockCall decodes a call (or deferred call) on the analysed lock.
@@ -508,7 +508,7 @@ func sharedField(c *Ctx, v ssa.Value) (what, base string, ok bool) {
 			}
 			// any other struct type of the module: objects hanging off the tree (segments, …) are shared with it;
 			// whether a field is shared state is decided by who writes it (sharedTreeFields)
-			if o.Obj().Pkg() != nil && strings.HasPrefix(o.Obj().Pkg().Path(), an.ModulePath) && !isPtrToNamed(types.NewPointer(o), c.A.ContextT) {
+			if treeReachableTypes(c)[o] {
 				return o.Obj().Name() + "." + an.FieldName(x.X.Type(), x.Field), an.AP(x.X), true
 			}
 			return "", "", false
@@ -768,4 +768,49 @@ func (la *LockAnalysis) CheckSingleSection(rule string, entries []*ssa.Function)
 		}
 		c.R.Add(rule, c.fk(f), "one-critical-section", at, ok, ifelse(ok, "the lock is never taken again after it was released", "the "+la.name+" is released and then acquired again within one operation: what the first section read or validated can be changed by another goroutine before the second section acts on it (two registrations that each pass the ambiguity check can both be applied)"))
 	}
+}
+
+var treeTypesCache = map[*an.Prog]map[*types.Named]bool{}
+
+// treeReachableTypes: the named struct types of the module that hang off a Tree (reachable from Tree / node through
+// fields, pointers, slices, arrays and map elements): objects of these types are shared with the tree.
+func treeReachableTypes(c *Ctx) map[*types.Named]bool {
+	if m, ok := treeTypesCache[c.P]; ok {
+		return m
+	}
+	out := map[*types.Named]bool{}
+	var visit func(t types.Type, depth int)
+	visit = func(t types.Type, depth int) {
+		if depth > 12 {
+			return
+		}
+		switch x := types.Unalias(t).(type) {
+		case *types.Pointer:
+			visit(x.Elem(), depth+1)
+		case *types.Slice:
+			visit(x.Elem(), depth+1)
+		case *types.Array:
+			visit(x.Elem(), depth+1)
+		case *types.Map:
+			visit(x.Elem(), depth+1)
+		case *types.Named:
+			o := x.Origin()
+			if out[o] || o.Obj().Pkg() == nil || !strings.HasPrefix(o.Obj().Pkg().Path(), an.ModulePath) {
+				return
+			}
+			st, ok := o.Underlying().(*types.Struct)
+			if !ok {
+				return
+			}
+			out[o] = true
+			for i := 0; i < st.NumFields(); i++ {
+				visit(st.Field(i).Type(), depth+1)
+			}
+		}
+	}
+	visit(c.A.TreeT, 0)
+	visit(c.A.NodeT, 0)
+	delete(out, c.A.ContextT.Origin())
+	treeTypesCache[c.P] = out
+	return out
 }
